@@ -98,7 +98,7 @@ def run(prog, tier):
                 'calls and by data facts such as max(NShells) <= SHELLNUM_C read from the data files); (c) allocation / release '
                 'typestate with ownership through fields and project constructors/destructors discovered from the code; '
                 '(d) NULL-checked parameter families are not dereferenced unchecked; (e) scanf %s widths; (f) memcpy sizes equal '
-                'allocation sizes.',
+                'allocation sizes; (g) every spline call site is dominated by the "has data" test that sizes the rows it reads.',
                 ['clang front end', 'E1 path enumeration with interval facts', 'resource model (xvlib/resources.py)',
                  'data facts from data/*.dat (xvlib/coverage.py)'],
                 ['A4 allocations the code does not test are assumed to succeed (the property does not ask for out-of-memory robustness)',
@@ -368,4 +368,28 @@ def run(prog, tier):
                                    'memcpy writes %s bytes into a block allocated with %s bytes' % (e.args[2].canon()[:80], size.canon()[:80]),
                                    why='copied size equals the allocated size')
     chk.floor('memcpy into fresh allocations', nm, 12)
+    spline_rows(prog, chk, tier)
     return chk
+
+
+def spline_rows(prog, chk, tier):
+    """(g) extent of the rows handed to the spline kernel: splint reads n knots of each of its three row pointers. The
+    generated tables hold n = N[Z] (resp. N[Z][shell]) elements in a row only when the element / sub-shell has data;
+    otherwise the row is a one-element placeholder.  So every call site must be dominated by the family's "has data"
+    test on the very count / occupancy that sizes the rows (the same site analysis as C02, read here as an extent rule)."""
+    from rules import c02
+    shim = Check('C04', tier, 'other', '', [], [])
+    fams = c02.derive_families(prog) + c02.FROZEN_FAMILIES
+    c02.sites(prog, shim, fams)
+    n = 0
+    for rule, inst, why, loc in shim.held:
+        if rule == 'site-no-data-guard':
+            n += 1
+            chk.ok('spline-row-extent', inst, 'the rows have the n elements that splint reads: ' + why, loc)
+    for v in shim.violations:
+        if v['rule'] == 'site-no-data-guard':
+            n += 1
+            chk.bad('spline-row-extent', v['unit'], v['function'], v['instance'], v['loc'],
+                    'splint reads n elements of each row it is given, but this call is reached for elements / sub-shells whose rows are one-element '
+                    'placeholders (no dominating "has data" test on the count or occupancy that sizes the rows): out-of-bounds read of the data tables')
+    chk.floor('spline call sites with a row-extent obligation', n, 20)
